@@ -720,6 +720,16 @@ pub unsafe extern "C" fn clock_gettime(clk: libc::clockid_t, ts: *mut libc::time
         }
     }
     let r = libc::syscall(libc::SYS_clock_gettime, clk, ts) as c_int;
+    if r == 0 && clk == libc::CLOCK_MONOTONIC && !ts.is_null() && SRV.try_with(|v| v.get()).unwrap_or(false) {
+        let off = SRV_VOFF_NS.load(Ordering::SeqCst);
+        if off != 0 {
+            let mut ns = (*ts).tv_sec as i128 * 1_000_000_000 + (*ts).tv_nsec as i128 + off as i128;
+            (*ts).tv_sec = (ns / 1_000_000_000) as i64;
+            ns %= 1_000_000_000;
+            (*ts).tv_nsec = ns as i64;
+        }
+        return r;
+    }
     if r == 0 && clk == libc::CLOCK_MONOTONIC && VIRT.try_with(|v| v.get()).unwrap_or(false) {
         let off = VOFF_NS.load(Ordering::SeqCst);
         let mut ns = (*ts).tv_sec as i128 * 1_000_000_000 + (*ts).tv_nsec as i128 + off as i128;
@@ -730,7 +740,28 @@ pub unsafe extern "C" fn clock_gettime(clk: libc::clockid_t, ts: *mut libc::time
     r
 }
 
+/// E5: time the server thread has been moved forward, and how much more it may be moved whenever
+/// it sleeps on a timer.
+static SRV_VOFF_NS: AtomicI64 = AtomicI64::new(0);
+static SRV_JUMP_BUDGET_MS: AtomicI64 = AtomicI64::new(0);
+/// Let `ms` milliseconds pass for the server thread: every timer it sleeps on fires as if that
+/// much time had gone by (a server that sleeps on no timer is not affected).
+pub fn srv_advance_time(ms: i64) {
+    SRV_JUMP_BUDGET_MS.store(ms, Ordering::SeqCst);
+}
+pub fn srv_time_budget_left() -> i64 {
+    SRV_JUMP_BUDGET_MS.load(Ordering::SeqCst)
+}
+pub fn srv_time_reset() {
+    SRV_JUMP_BUDGET_MS.store(0, Ordering::SeqCst);
+}
+
 static IDLE: AtomicBool = AtomicBool::new(false);
+/// the server thread is blocked with no timer pending (infinite epoll timeout)
+static IDLE_NO_TIMER: AtomicBool = AtomicBool::new(false);
+pub fn srv_idle_without_timer() -> bool {
+    IDLE_NO_TIMER.load(Ordering::SeqCst)
+}
 static EPOCH: AtomicU64 = AtomicU64::new(0);
 
 /// Mark the calling thread as the E5 server thread.
@@ -751,10 +782,51 @@ pub unsafe extern "C" fn epoll_wait(ep: c_int, evs: *mut libc::epoll_event, max:
         if r != 0 || timeout == 0 {
             return r;
         }
+        if timeout > 0 {
+            // the server sleeps on a TIMER: time may be made to pass (srv_advance_time), otherwise the
+            // wait is real, in short slices so that a later request to advance is noticed
+            let mut remaining_ms = timeout as i64;
+            let mut marked = false;
+            loop {
+                let budget = SRV_JUMP_BUDGET_MS.load(Ordering::SeqCst);
+                if budget > 0 {
+                    let take = budget.min(remaining_ms);
+                    SRV_JUMP_BUDGET_MS.fetch_sub(take, Ordering::SeqCst);
+                    SRV_VOFF_NS.fetch_add(take * 1_000_000, Ordering::SeqCst);
+                    remaining_ms -= take;
+                    if remaining_ms <= 0 {
+                        if marked {
+                            IDLE.store(false, Ordering::SeqCst);
+                        }
+                        return 0;
+                    }
+                    continue;
+                }
+                if !marked {
+                    EPOCH.fetch_add(1, Ordering::SeqCst);
+                    IDLE.store(true, Ordering::SeqCst);
+                    marked = true;
+                }
+                let slice = remaining_ms.min(2) as c_int;
+                let t0 = mono_ns();
+                let r = libc::syscall(libc::SYS_epoll_wait, ep, evs, max, slice) as c_int;
+                if r != 0 {
+                    IDLE.store(false, Ordering::SeqCst);
+                    return r;
+                }
+                remaining_ms -= ((mono_ns() - t0) / 1_000_000).max(1);
+                if remaining_ms <= 0 {
+                    IDLE.store(false, Ordering::SeqCst);
+                    return 0;
+                }
+            }
+        }
         EPOCH.fetch_add(1, Ordering::SeqCst);
+        IDLE_NO_TIMER.store(true, Ordering::SeqCst);
         IDLE.store(true, Ordering::SeqCst);
         let r = libc::syscall(libc::SYS_epoll_wait, ep, evs, max, timeout) as c_int;
         IDLE.store(false, Ordering::SeqCst);
+        IDLE_NO_TIMER.store(false, Ordering::SeqCst);
         return r;
     }
     if !VIRT.try_with(|v| v.get()).unwrap_or(false) || timeout <= 0 {
